@@ -48,8 +48,8 @@ def files_hash(paths):
 
 def verif_common_files():
     out = []
-    for d in ('engine', 'ref', 'models'):
-        out += sorted(glob.glob(os.path.join(VERIF, d, '*.hpp')))
+    for d in ('engine', 'ref', 'models', 'harness', 'sched'):
+        out += sorted(glob.glob(os.path.join(VERIF, d, '*.hpp'))) + sorted(glob.glob(os.path.join(VERIF, d, '*.h')))
     return out
 
 
@@ -80,7 +80,7 @@ def build_variant(prop, variant, th, pool):
         obj = os.path.join(libdir, s.replace('/', '_') + '.o')
         libobjs.append(obj)
         jobs.append((cxx, base, os.path.join(REPO, s), obj))
-    srcs = [os.path.join(VERIF, s) for s in chk['src']]
+    srcs = [os.path.join(VERIF, s) for s in variant.get('src', chk['src'])]
     hkey = hashlib.sha256((libkey + files_hash(srcs + verif_common_files()) + ' '.join(chk.get('extra_flags', []))).encode()).hexdigest()[:12]
     hdir = os.path.join(BUILD, 'h-%s-%s-%s' % (prop, variant['name'], hkey))
     binp = os.path.join(hdir, 'harness')
@@ -93,12 +93,12 @@ def build_variant(prop, variant, th, pool):
     for s in srcs:
         obj = os.path.join(hdir, os.path.basename(s) + '.o')
         hobjs.append(obj)
-        jobs.append((cxx, base + chk.get('extra_flags', []) + variant.get('harness_flags', []), s, obj))
+        jobs.append((cxx, base + chk.get('extra_flags', []) + variant.get('harness_flags', []) + chk.get('src_flags', {}).get(os.path.relpath(s, VERIF), []), s, obj))
     for obj, rc, out in pool.map(compile_one, jobs):
         if rc != 0:
             print('BUILD FAILED: %s\n%s' % (obj, out[-6000:]))
             raise SystemExit(2)
-    r = sh([cxx] + fl['flags'] + hobjs + libobjs + ['-o', binp + '.tmp'] + fl.get('libs', []) + chk.get('libs', []))
+    r = sh([cxx] + fl.get('ldflags', fl['flags']) + hobjs + libobjs + ['-o', binp + '.tmp'] + fl.get('libs', []) + chk.get('libs', []))
     if r.returncode != 0:
         print('LINK FAILED:\n' + r.stdout[-6000:])
         raise SystemExit(2)
@@ -139,7 +139,7 @@ def load_known():
 def run_variant(prop, variant, binp, tier, seed, deadline):
     out = os.path.join(BUILD, 'res-%s-%s-%d.json' % (prop, variant['name'], os.getpid()))
     env = dict(os.environ)
-    env['ASAN_OPTIONS'] = 'detect_leaks=0:exitcode=87:allocator_may_return_null=1:malloc_context_size=8:max_allocation_size_mb=2048:detect_stack_use_after_return=0'
+    env['ASAN_OPTIONS'] = 'detect_leaks=0:exitcode=87:allocator_may_return_null=1:malloc_context_size=8:max_allocation_size_mb=2048:detect_stack_use_after_return=0:fast_unwind_on_fatal=1'
     env['UBSAN_OPTIONS'] = 'halt_on_error=1:exitcode=88:print_stacktrace=1'
     auxdir = os.path.join(BUILD, 'aux-%s-%s-%d' % (prop, variant['name'], os.getpid()))
     shutil.rmtree(auxdir, ignore_errors=True); os.makedirs(auxdir)
@@ -235,7 +235,7 @@ def main():
             known_hits.setdefault(hit['sig'], []).append(sig)
         else:
             unlisted.append((sig, e))
-    rdir = os.path.join(VERIF, 'replays', prop)
+    rdir = os.path.join(VERIF, 'replays', prop) if not os.environ.get('VERIF_NO_EVIDENCE') else os.path.join(BUILD, 'replays-scratch', prop)
     shutil.rmtree(rdir, ignore_errors=True)
     lines = []
     for f in findings:
@@ -281,8 +281,10 @@ def main():
         cov['explanation'] = 'every transition is an execution of the real implementation (no separate model); states are canonical hashes of implementation state'
     ev = dict(property_id=prop, tier=tier, seed=seed, level=ev_level, coverage=cov, assumptions=chk.get('assumptions', []),
               wall_s=round(time.time() - t0, 2), violations=len(unlisted))
-    os.makedirs(os.path.join(VERIF, 'evidence'), exist_ok=True)
-    json.dump(ev, open(os.path.join(VERIF, 'evidence', prop + '.json'), 'w'), indent=1)
+    # VERIF_NO_EVIDENCE: runs against a scratch tree (seeded changes) must not overwrite the evidence of /repo
+    if not os.environ.get('VERIF_NO_EVIDENCE'):
+        os.makedirs(os.path.join(VERIF, 'evidence'), exist_ok=True)
+        json.dump(ev, open(os.path.join(VERIF, 'evidence', prop + '.json'), 'w'), indent=1)
     for l in lines:
         print(l)
     print('%s %s: executions=%d outcomes=%d nontrivial=%d signatures=%d unlisted=%d known=%d build=%.0fs total=%.0fs exhaustive=%s' % (
